@@ -48,6 +48,42 @@ def run(ctx):
     boot_window(ctx, "C04.R8")
 
 
+def eventlet_waits_for_every_acceptor(ctx, rid):
+    """eventlet: a stopped accept loop ends when the requests it spawned are served, so the graceful phase is over when *every*
+    acceptor has ended.  Evaluated from the statement after the acceptors were told to stop, with two acceptors -- the first
+    already ended (an idle listener), the second still serving: no path leaves the graceful section normally (not through the
+    graceful Timeout) without having waited on the second one."""
+    repo = ctx.repo
+    q = "gunicorn.workers.geventlet.EventletWorker.run"
+    if not repo.has_func(q):
+        return
+    from ..absint import Inst
+    f = ctx.fn(repo.func(q))
+    g = f.cfg
+    kills = [n for n in g.nodes if n.kind == "for" and isinstance(n.ast.iter, ast.Name) and any(isinstance(c, ast.Call) and isinstance(c.func, ast.Attribute) and c.func.attr == "kill" and c.args for st in n.ast.body for c in ast.walk(st))]
+    ctx.need(kills, rid + ": the loop that stops the eventlet acceptors (a.kill(StopServe)) was not found")
+    kl = kills[0]
+    ACC = kl.ast.iter.id
+    withs = [w for w in f.module.ancestors(kl.ast) if isinstance(w, ast.With) and any(cfg_attr(x) == "graceful_timeout" for it in w.items for x in ast.walk(it.context_expr))]
+    ctx.need(withs, rid + ": the acceptors are not stopped inside a Timeout(graceful_timeout) block")
+    gw = withs[0]
+    inside = set(n.id for n in g.nodes if n.ast is not None and (n.ast is gw or n.stmt is gw or any(a is gw for a in f.module.ancestors(n.ast))))
+    a1, a2 = Inst("greenlet", dead=True, _str="A1"), Inst("greenlet", dead=False, _str="A2")
+
+    def waited(ex, c, env):
+        v = ex.ev(c.func.value, env)
+        if isinstance(v, Inst) and (".wait", str(v)) in env.get(Explorer.TRACE, ()):
+            return Explorer.SKIP          # (once is enough: a polling loop must converge)
+        return str(v) if isinstance(v, Inst) else UNKNOWN
+    outs = Explorer(f, call_trace={".wait": waited}, max_states=20000).run(kl, {ACC: (a1, a2)}, start_label="false", stop=lambda n: n.id not in inside and n.kind not in ("join", "with_exit"))
+    left = [o for o in outs if o.kind in ("stop", "return") and not any(p.kind == "handler" for p in o.path)]
+    bad_ = [o for o in left if (".wait", "A2") not in o.env.get(Explorer.TRACE, ()) and (".wait", "U") not in o.env.get(Explorer.TRACE, ())]
+    ctx.check(rid, not bad_, key(f, "every-acceptor-waited-for"), site(f, kl),
+              "with two listeners -- the first acceptor already ended (idle), the second still serving a request -- EventletWorker.run leaves the graceful wait without having waited for the second "
+              "acceptor: the worker exits within a second of TERM and the request in progress is dropped (waits seen: %s)" % (sorted(set(v for o in bad_ for q_, v in o.env.get(Explorer.TRACE, ()))) or "none"),
+              "the graceful wait covers every acceptor", path=bad_ and g.fmt_path(list(bad_[0].path)))
+
+
 def boot_window(ctx, rid):
     """spawn_worker evaluated for fork() == 0, with the calls that change signal dispositions traced: before the child enters
     worker.init_process() -- which loads the application, patches the standard library (gevent, eventlet) and only then
@@ -78,7 +114,7 @@ def boot_window(ctx, rid):
         if how is UNKNOWN or ss is UNKNOWN:
             return UNKNOWN
         return (how, tuple(ss) if isinstance(ss, (tuple, list, set, frozenset)) else (ss,))
-    traces = {"signal.signal": sigarg, "signal.pthread_sigmask": maskarg, ".init_process": lambda ex, c, env: "enter"}
+    traces = {"signal.signal": sigarg, "signal.pthread_sigmask": maskarg, ".init_process": lambda ex, c, env: "enter", "os.fork": lambda ex, c, env: "fork"}
     outs = Explorer(f, atom_of=atom_of, call_trace=traces, follow_implicit_exc=False).run(g.entry, {"FORKPID": 0, "self.WORKERS": {}})
     STOPS = ("@signal.SIGTERM", "@signal.SIGQUIT", "@signal.SIGINT")
     seen = 0
@@ -90,8 +126,12 @@ def boot_window(ctx, rid):
         seen += 1
         before = tr[:idx[0]]
         own, blocked = set(), set()
+        forked = False
+        exposed = {}          # stop signal -> the event after which it was deliverable to the inherited handler in the child
         for q, v in before:
-            if q == "signal.signal" and isinstance(v, str):
+            if q == "os.fork":
+                forked = True
+            elif q == "signal.signal" and isinstance(v, str):
                 own.add(v)
             elif q == "signal.pthread_sigmask" and isinstance(v, tuple) and len(v) == 2:
                 if v[0] == "@signal.SIG_BLOCK":
@@ -100,11 +140,22 @@ def boot_window(ctx, rid):
                     blocked -= set(v[1])
                 elif v[0] == "@signal.SIG_SETMASK":
                     blocked = set(v[1])
+            if forked:
+                for s_ in STOPS:
+                    if s_ not in own and s_ not in blocked and s_ not in exposed:
+                        exposed[s_] = "fork()" if q == "os.fork" else "%s(%s)" % (q.split(".")[-1], ", ".join(str(x)[8:] if isinstance(x, str) else "[%s]" % ", ".join(str(y)[8:] for y in x) for x in (v if isinstance(v, tuple) else (v,))))
         lost = [s_ for s_ in STOPS if s_ not in own and s_ not in blocked]
         ctx.check(rid, not lost, key(f, "stop-signals-inherit-master-handlers"), site(f, text="child branch of spawn_worker"),
                   "in the forked child %s still have the master's handler (Arbiter.signal: queue for the master's main loop) when worker.init_process() starts -- dispositions changed before: %s, "
                   "blocked: %s.  A TERM/QUIT/INT that Arbiter.stop() sends while the worker boots (gevent / eventlet: ~120 ms of monkey patching) is swallowed; the worker then serves until it is "
                   "SIGKILLed at the graceful timeout" % ([x[8:] for x in lost], sorted(x[8:] for x in own), sorted(str(x)[8:] for x in blocked)), "TERM, QUIT, INT re-disposed or blocked before init_process()")
+        # ... and at no moment in between: from fork() on, a stop signal is either still held back or already has the child's own
+        # disposition (unblocking first and installing the handlers afterwards re-opens the window for a few instructions --
+        # exactly where a TERM sent right after a respawn arrives)
+        early = {k_: v_ for k_, v_ in exposed.items() if k_ not in lost}
+        ctx.check(rid, not early, key(f, "stop-signals-deliverable-before-own-handlers"), site(f, text="child branch of spawn_worker"),
+                  "in the forked child %s can be delivered to the master's inherited handler (which only queues it for a loop the child never runs) before the child's own disposition is installed: "
+                  "deliverable after %s, own handlers only later" % (sorted(x[8:] for x in early), sorted(set(early.values()))), "held back until the child's handlers are installed")
     ctx.need(seen, rid + ": the child branch of spawn_worker never reaches worker.init_process()")
 
 
@@ -315,6 +366,7 @@ def r3(ctx):
                             ctx.check("C04.R3", not via_self, key(f, "graceful-kill|" + norm(c)[:40]), site(f, c),
                                       "during the graceful phase %s ends `%s` (reached through self, not something run() started itself): handlers that are reading a request, or requests queued for the pool, "
                                       "are cut before the graceful timeout has passed" % (f.short, norm(src)), "only run()'s own servers / acceptors are ended")
+    eventlet_waits_for_every_acceptor(ctx, "C04.R3")
     # gevent: the drain loop ends early only when NO listener's pool is busy (decision table over two listeners)
     if repo.has_func("gunicorn.workers.ggevent.GeventWorker.run"):
         from ..absint import SpecObj
